@@ -299,9 +299,19 @@ def resolveFilter (cfg : Cfg) (h : Hist) (tit : UInt8) (tid : UInt16) (name : By
   else none
 
 def c03 (cfg : Cfg) (tr : List TE) : List Viol :=
-  overSteps tr fun h s =>
-    if !connected h || !h.live s then [] else
-    let v (sig : String) : List Viol := [{ sig := sig, detail := s!"t={s.t}" }]
+  overSteps tr fun h s0 =>
+    if !connected h || !h.live s0 then [] else
+    let v (sig : String) : List Viol := [{ sig := sig, detail := s!"t={s0.t}" }]
+    -- a client datagram handled while nothing has been written to the broker for half a keep-alive is followed
+    -- by a PINGREQ of the gateway itself (it proves the client alive): that ping is not part of the translation
+    let stale := match h.lastMqOut with
+      | some t0 => (s0.t - t0) * 2 ≥ h.keepAlive.toNat * 1000
+      | none => true
+    let isMq := fun (x : Nat × Out) => match x.2 with | Out.mq _ => true | _ => false
+    let mqs := s0.outs.filter isMq
+    let ownPing := s0.snIn.isSome && stale && mqs.length == 1 && mqs.getLast?.map (·.2) == some (Out.mq .pingreq) &&
+      !(match s0.snIn with | some (.pingreq _) => !h.asleep | _ => false)
+    let s : Step := if ownPing then { s0 with outs := s0.outs.filter fun x => !isMq x } else s0
     match s.snIn, s.mqIn with
     | some (.subscribe _ q tit mid tid name), _ =>
       if q > 2 then (if s.mqOuts.isEmpty then [] else v "subscribe-qos3-forwarded")
@@ -326,10 +336,7 @@ def c03 (cfg : Cfg) (tr : List TE) : List Viol :=
       if h.asleep then
         -- a wake-up is answered by the gateway; it is not forwarded — but it proves the client alive, and the
         -- gateway pings the broker on its behalf when nothing has been written for half a keep-alive
-        let stale := match h.lastMqOut with
-          | some t0 => (s.t - t0) * 2 ≥ h.keepAlive.toNat * 1000
-          | none => true
-        (if s.mqOuts.isEmpty || (s.mqOuts == [.pingreq] && stale) then [] else v "wakeup-pingreq-forwarded")
+        (if s.mqOuts.isEmpty then [] else v "wakeup-pingreq-forwarded")
       else (if s.mqOuts == [.pingreq] then [] else v "pingreq-not-one-to-one")
     | some (.disconnect 0), _ => if s.mqOuts == [.disconnect] then [] else v "disconnect-not-one-to-one"
     | _, some (.pubrec mid) => if h.asleep || s.snOuts == [.pubrec mid] then [] else v "pubrec-not-one-to-one"
@@ -1007,7 +1014,10 @@ def c12 (tr : List TE) (tEnd : Nat) : List Viol :=
       if b > a + ka && !asleepAt a && !asleepAt (a + ka) then some (a + ka) else none)
     -- asleep, the client shows up (PINGREQ, CONNECT, DISCONNECT) at least once per announced duration
     let breaksSleep := sleeps.flatMap fun (ts, tw, d) =>
-      let shows := ts :: ((cds.filter fun (t, _) => t > ts && t ≤ tw).map (·.1))
+      -- (waking up is PINGREQ / CONNECT / DISCONNECT: an acknowledgement a blindly answering client sends in
+      -- its sleep is not a wake-up, and no sleep cycle begins with it)
+      let shows := ts :: ((cds.filter fun (t, p) => t > ts && t ≤ tw &&
+        (match p with | .pingreq _ | .connect .. | .disconnect _ => true | _ => false)).map (·.1))
       (shows.zip (shows.drop 1 ++ [tw])).filterMap fun (a, b) => if b > a + d then some (a + d) else none
     let tOk := (breaksActive ++ breaksSleep).foldl min tStop
     let outs := t0 :: (mqOutTimes tr).filter fun t => t > t0
@@ -1047,9 +1057,10 @@ def c34 (cfg : Cfg) (tr : List TE) (tEnd : Nat) : List Viol :=
       | .disconnect d => if d != 0 then some d else none
       | .connect .. => none
       | _ => acc) none
+    -- (whatever the last datagram of a client that is asleep at the end was: the bound runs from the point of silence)
     let sleepEnd := match lastPkt, lastSleep with
       | .disconnect d, _ => tv + d.toNat * 1000
-      | .pingreq _, some d => tv + d.toNat * 1000
+      | _, some d => tv + d.toNat * 1000
       | _, _ => ((cds.filterMap fun (t, p) => match p with
           | .disconnect d => if d != 0 then some (t + d.toNat * 1000) else none
           | _ => none).foldl max tv)
